@@ -148,6 +148,7 @@ class ParCtx:
 
 def run(prog, R):
     R.rule('PAR-15', 'the reader closure is spawned inside crossbeam scope, jobs are executed inside Pool::scoped (all threads are scoped and joined)')
+    R.rule('PAR-16', 'priming of the recycle channel: the loop starts at 0 with a bound that covers the queue length (at least one set circulates for every queue length >= 1) and the bound has the same origin as the capacity of the channel it fills (the priming sends cannot block)')
     R.rule('PAR-8', 'both sync_channel capacities and the bound of the initial fill loop derive from the queue_len parameter only')
     R.rule('PAR-9', 'the data-set initialiser is called at <=2 sites, both in the scope closure: one inside a single loop over 0..queue_len, one outside any loop; only the fill loop and ParallelRecordsets::next send on the recycle channel; the reader fills only sets it received')
     R.rule('PAR-1', 'job closure: the message is Some(Ok((captured set, value returned by the worker called on &mut that set)))')
@@ -222,6 +223,23 @@ def run(prog, R):
         ok = lo.const_int() == 0 and len(hi) == 1 and hi[0].is_param(rpi.key, P_QLEN, ())
         R.add('PAR-8', sc, 'fill-loop-range', ok, site(sc, agg.line),
               'range %s..%s' % (lo.pretty(), '; '.join(r.describe() for r in hi)))
+        # PAR-16 (for C07 / C08, which do not care how many sets there are, only that there is one and that
+        # priming cannot block): round-4 seeds C07-r4a (`1..queue_len`) vs. C16-r4b (max(queue_len, n_threads) everywhere)
+        cap = cx.prov(rpi, cx.chan_empty.args[0])
+
+        def has_qlen(rs, depth=0):
+            for r in rs:
+                if r.is_param(rpi.key, P_QLEN, ()):
+                    return True
+                if r.kind == 'call' and depth < 3 and any(has_qlen(cx.prov(r.body, a), depth + 1) for a in r.data.args):
+                    return True
+            return False
+        same = sorted(r.describe() for r in hi) == sorted(r.describe() for r in cap)
+        R.add('PAR-16', sc, 'priming-starts-at-0-and-covers-the-queue-length', lo.const_int() == 0 and has_qlen(hi), site(sc, agg.line),
+              'range %s..%s: with a queue length of 1 at least one set must reach the reader' % (lo.pretty(), '; '.join(r.describe() for r in hi)))
+        R.add('PAR-16', sc, 'priming-bound-is-the-recycle-capacity', same, site(sc, agg.line),
+              'bound of the priming loop <- %s; capacity of the recycle channel <- %s (a larger bound blocks in send before the consumer exists)' % (
+                  '; '.join(r.describe() for r in hi), '; '.join(r.describe() for r in cap)))
 
     # ---------------- PAR-9
     init_sites = []
